@@ -51,16 +51,17 @@ def driver_ok(status):
         raise vlib.Broken("mono_driver gave up: %s" % status)
 
 
-def run_seq(progs, tag):
-    """execute operation sequences on the real exclusive resource; one forked child per sequence"""
+def run_seq(progs, tag, scenario="seq"):
+    """execute operation sequences on the real exclusive resource; one forked child per sequence
+    (scenario real: items are (P, prog, stack) and the pages come from babylon's own allocator stack)"""
     d = os.path.join(vlib.BUILD, "traces")
     os.makedirs(d, exist_ok=True)
     f = os.path.join(d, "%s.%d.scripts" % (tag, os.getpid()))
     with open(f, "w") as fh:
-        for P, prog in progs:
-            fh.write("P=%d,prog=%s|\n" % (P, prog))
+        for it in progs:
+            fh.write("P=%d,prog=%s%s|\n" % (it[0], it[1], ",stack=%s" % it[2] if len(it) > 2 else ""))
     raw = f + ".ndjson"
-    s = vlib.driver_status(vlib.driver("mono_driver", ["--scenario", "seq", "--scripts-file", f, "--out", raw, "--no-atomics", "-j", "8", "--timeout-ms", "60000"]))
+    s = vlib.driver_status(vlib.driver("mono_driver", ["--scenario", scenario, "--scripts-file", f, "--out", raw, "--no-atomics", "-j", "8", "--timeout-ms", "60000"]))
     driver_ok(s["status"])
     execs = list(vlib.split_traces(raw))
     os.unlink(raw)
@@ -99,6 +100,8 @@ def rerun(key):
     p = key["params"]
     if key["scenario"] == "seq":
         return run_seq([(int(p["P"]), p["prog"])], "rerun")[0][0]
+    if key["scenario"] == "real":
+        return run_seq([(int(p["P"]), p["prog"], p.get("stack", "nd"))], "rerun", scenario="real")[0][0]
     st = key["strategy"]
     if st == "pb":
         # vrun cannot be handed a preemption script: the (deterministic) exploration is repeated once per program
@@ -122,7 +125,9 @@ def rerun(key):
 def describe(key):
     p = key["params"]
     s = "scenario=%s P=%s prog=%s" % (key["scenario"], p["P"], p["prog"])
-    if key["scenario"] != "seq":
+    if key["scenario"] == "real":
+        s += " stack=%s" % p.get("stack")
+    elif key["scenario"] != "seq":
         s += " variant=%s seed=%s strategy=%s" % (p.get("variant"), key["seed"], key["strategy"])
     return s
 
@@ -147,7 +152,7 @@ def run(pid, tier, seed, replay=None):
         for cfg in (MC_QUICK if quick else MC_QUICK + MC_THOROUGH) + [MC_FINDING]:
             p = os.path.join(SPEC, "mc", cfg)
             if os.path.exists(p):
-                mc_jobs[cfg] = pool.submit(tlc_job, 0.05 * len(mc_jobs), MC_TLA, p, cache=True, workers=6 if quick else 12, timeout=3000, heap="8g")
+                mc_jobs[cfg] = pool.submit(tlc_job, 0.05 * len(mc_jobs), MC_TLA, p, cache=True, workers=4 if quick else 8, timeout=3000, heap="8g")
 
     # ---- 2. programs: fixed, seeded, generated by TLC from the specification
     status = {}
@@ -155,6 +160,7 @@ def run(pid, tier, seed, replay=None):
         key = json.load(open(replay))["exec"]
         seq_execs, sh_execs = ([rerun(key)], []) if key["scenario"] == "seq" else ([], [rerun(key)])
         wit_execs = []
+        real_execs = []
     else:
         progs = list(mc.FIXED)
         sources = ["fixed"] * len(progs)
@@ -185,6 +191,9 @@ def run(pid, tier, seed, replay=None):
         merge(status, st)
         wit_execs, st = run_seq(mc.MVC_WITNESS, pid + "_mvc")
         merge(status, st)
+        # ---- the same resource on babylon's own page allocator stack behind a recording decorator (L1 only)
+        real_execs, st = run_seq(mc.real_programs(quick), pid + "_real", scenario="real")
+        merge(status, st)
         # ---- shared / swiss under vsched
         sh_execs = []
         shp = [(P, prog, "shared") for P, prog in mc.FIXED_SHARED] + [(mc.FIXED_SHARED[0][0], mc.FIXED_SHARED[0][1], "swiss")]
@@ -200,8 +209,8 @@ def run(pid, tier, seed, replay=None):
                             extra=["--pb-bound", "1" if quick else "2", "--max-execs", "80" if quick else "500"])
         sh_execs += ex
         merge(status, {k: v for k, v in st.items() if not k.startswith("_")})
-    execs = seq_execs + wit_execs + sh_execs
-    V.extra["executions"] = {"sequential": len(seq_execs), "move_construct_witness": len(wit_execs), "shared_swiss": len(sh_execs)}
+    execs = seq_execs + wit_execs + real_execs + sh_execs
+    V.extra["executions"] = {"sequential": len(seq_execs), "move_construct_witness": len(wit_execs), "real_allocator_stack": len(real_execs), "shared_swiss": len(sh_execs)}
     V.extra["exec_status"] = status
 
     # ---- 3. validation: L2 conformance (sequential executions) and the L1 monitor (everything), one TLC pass each
@@ -216,6 +225,10 @@ def run(pid, tier, seed, replay=None):
         accepted += acc
         V.cov["transitions"] += st["states"]
         V.extra["trace_" + name] = {"executions": len(exs), "accepted": acc, "issues": len(issues), "lines": st["lines"], "tlc_states": st["states"], "wall_s": round(st["wall"], 1)}
+        for j, clause, line in st.get("env", []):
+            V.extra.setdefault("environment_assumption_violated", []).append({"clause": clause, "exec": describe(exec_key(exs[j])), "line": line})
+            if len(V.extra["environment_assumption_violated"]) <= 3:
+                log("ENV-ASSUMPTION %s does not hold (page pointer %% page size != 0): %s" % (clause, describe(exec_key(exs[j]))))
         redo = []
         for iss in issues:
             ex = exs[iss.exec_index]
